@@ -84,8 +84,34 @@ def rerun(ids):
         sys.stdout.flush()
 
 
-if __name__ == "__main__":
+if __name__ == "__main__" and sys.argv[1] in ("add", "rerun"):
     if sys.argv[1] == "add":
         add(sys.argv[2], sys.argv[3], sys.argv[4], sys.argv[5], sys.argv[6], sys.argv[7:])
     else:
         rerun(sys.argv[2:])
+
+
+def add_quiet(id_, patch, notes):
+    """A property-preserving change: all three checks must stay silent on it."""
+    dst = os.path.join(SEEDED, id_)
+    os.makedirs(dst, exist_ok=True)
+    shutil.copy(patch, os.path.join(dst, "patch.diff"))
+    if notes and os.path.exists(notes):
+        shutil.copy(notes, os.path.join(dst, "notes.md"))
+    res = {}
+    quiet = True
+    for prop in ("C09", "C10", "C20"):
+        r = mutate.run_patch(os.path.join(dst, "patch.diff"), prop, seeds=("", "1"))
+        res[prop] = r
+        quiet = quiet and all(x.get("check_exit") == 0 and x.get("violations", 0) == 0 for x in r)
+    meta = {"id": id_, "property": "none (specificity: C09, C10 and C20 all still hold)", "expect": "quiet",
+            "needs": open(os.path.join(dst, "notes.md")).read()[:2500] if os.path.exists(os.path.join(dst, "notes.md")) else "",
+            "ran": ["pinned test suite with patch", "./run_check.sh C09|C10|C20 quick with VERIF_REPO=<scratch copy + patch>, default seed and VERIF_SEED=1"],
+            "check_results": res, "quiet": quiet, "at": time.strftime("%Y-%m-%dT%H:%M:%SZ", time.gmtime())}
+    json.dump(meta, open(os.path.join(dst, "meta.json"), "w"), indent=1)
+    print(id_, "QUIET as expected" if quiet else "*** ALARM ***",
+          {p: [(x.get("seed"), x.get("tests_passed"), x.get("check_exit"), x.get("violations"), x.get("first", "")[:160]) for x in r] for p, r in res.items()})
+
+
+if __name__ == "__main__" and sys.argv[1] == "addquiet":
+    add_quiet(sys.argv[2], sys.argv[3], sys.argv[4])
